@@ -20,6 +20,14 @@ impl View for IdSet { type V = Set<ActorId>; uninterp spec fn view(&self) -> Set
 impl IdSet {
     #[verifier::external_body]
     pub fn contains(&self, k: &ActorId) -> (r: bool) ensures r == self@.contains(*k) { unimplemented!() }
+    #[verifier::external_body]
+    pub fn insert(&mut self, k: ActorId) -> (r: bool) ensures final(self)@ == old(self)@.insert(k), r == !old(self)@.contains(k) { unimplemented!() }
+    #[verifier::external_body]
+    pub fn remove(&mut self, k: &ActorId) -> (r: bool) ensures final(self)@ == old(self)@.remove(*k), r == old(self)@.contains(*k) { unimplemented!() }
+}
+impl SessionRef {
+    #[verifier::external_body]
+    pub fn clone(&self) -> (r: SessionRef) ensures r == *self { unimplemented!() }
 }
 impl SessionsMap {
     #[verifier::external_body]
@@ -98,6 +106,29 @@ pub open spec fn takes_part(st: NodeServerState, id: ActorId, c: Cand) -> bool {
     c == cand_of(st, id) || (rival(st, peer_of(st, id), c.actor_id) && c == cand_of(st, c.actor_id))
 }
 pub open spec fn the_field(s: Seq<Cand>, st: NodeServerState, id: ActorId) -> bool { forall|c: Cand| s.contains(c) <==> takes_part(st, id, c) }
+/// the same notions for the table as it is right after `actor_id` was admitted: `a1` = the authenticated set then
+pub open spec fn cand_at(m: Map<ActorId, Info>, conn: Map<ActorId, Option<Nonce>>, id: ActorId) -> Cand {
+    SessionElectionCandidate { actor_id: id, is_server: m[id].is_server, connection_id: nonce_at(conn, id) }
+}
+pub open spec fn rival_in(m: Map<ActorId, Info>, a1: Set<ActorId>, peer: Seq<char>, j: ActorId) -> bool { a1.contains(j) && m.contains_key(j) && claims(m[j], peer) }
+pub open spec fn field_in(s: Seq<Cand>, m: Map<ActorId, Info>, conn: Map<ActorId, Option<Nonce>>, a1: Set<ActorId>, peer: Seq<char>) -> bool {
+    forall|c: Cand| s.contains(c) <==> (rival_in(m, a1, peer, c.actor_id) && c == cand_at(m, conn, c.actor_id))
+}
+/// the outcome of admitting `id`, for a candidate list `s` with exactly the authenticated sessions of the peer: who stays authenticated, what is reported
+pub open spec fn commit_outcome(m: Map<ActorId, Info>, conn: Map<ActorId, Option<Nonce>>, a1: Set<ActorId>, me: Seq<char>, peer: Seq<char>, id: ActorId,
+                                s: Seq<Cand>, after: Set<ActorId>, survives: bool, handed_back: Seq<SessionRef>) -> bool {
+    let el = elect_spec(me, peer, s);
+    &&& survives == el.contains(cand_at(m, conn, id))
+    // only authenticated sessions of that very peer that lost the election stop being authenticated; nobody is added
+    &&& forall|j: ActorId| #[trigger] after.contains(j) == (a1.contains(j) && !(rival_in(m, a1, peer, j) && !el.contains(cand_at(m, conn, j))))
+    // the sessions handed back to be stopped are exactly those
+    &&& forall|i: int| 0 <= i < handed_back.len() ==> exists|j: ActorId| a1.contains(j) && !after.contains(j) && m.contains_key(j) && #[trigger] handed_back[i] == m[j].actor
+    &&& forall|j: ActorId| a1.contains(j) && !#[trigger] after.contains(j) ==> handed_back.contains(m[j].actor)
+}
+pub open spec fn loser_fn(a1: Set<ActorId>, peer: Seq<char>, elected: Seq<ActorId>) -> spec_fn(ActorId, Info) -> Option<(ActorId, SessionRef)> {
+    |id: ActorId, s: Info| if a1.contains(id) && claims(s, peer) && !elected.contains(id) { Some((id, s.actor)) } else { None }
+}
+pub open spec fn second() -> spec_fn((ActorId, SessionRef)) -> SessionRef { |p: (ActorId, SessionRef)| p.1 }
 /// what check_candidate promises about its verdict on session `k`
 pub open spec fn judged(st: NodeServerState, k: ActorId, r: SessionCheckReply) -> bool {
     &&& !named(st, k) ==> r is OtherConnectionContinues
@@ -134,6 +165,7 @@ pub proof fn lemma_field(st: NodeServerState, id: ActorId, c0: Seq<Cand>, cs: Se
         cs == (if st.authenticated_sessions@.contains(id) { c0 } else { c0.push(cand_of(st, id)) }),
     ensures the_field(cs, st, id),
         forall|c: Cand| #[trigger] cs.contains(c) && c.actor_id == id ==> c == cand_of(st, id),
+        forall|c: Cand| #[trigger] cs.contains(c) ==> c == cand_of(st, c.actor_id),
         cs.len() <= 1 ==> (forall|j: ActorId| j != id ==> !#[trigger] rival(st, peer_of(st, id), j)),
 {
     let m = st.node_sessions@; let peer = peer_of(st, id); let g = cand_fn(st, peer, true);
@@ -212,6 +244,99 @@ pub proof fn lemma_registrations(st: NodeServerState, nm: NameMessage, r: Seq<Ac
         assert(ks.contains(k1) && ks.contains(k2));
         let a = choose|a: int| 0 <= a < ks.len() && ks[a] == k1; let b = choose|b: int| 0 <= b < ks.len() && ks[b] == k2;
         assert(a != b);
+    }
+}
+/// after the admission: who is elected, for the list the scan produced and for every other list with the same members
+pub proof fn lemma_commit(me: Seq<char>, st1: NodeServerState, id: ActorId, cs: Seq<Cand>, elected: Seq<ActorId>)
+    requires named(st1, id), st1.authenticated_sessions@.contains(id),
+        collected(st1.node_sessions@, cand_fn(st1, peer_of(st1, id), true), cs),
+        elected == ids_of(elect_spec(me, peer_of(st1, id), cs)),
+    ensures
+        field_in(cs, st1.node_sessions@, st1.connection_ids@, st1.authenticated_sessions@, peer_of(st1, id)),
+        forall|j: ActorId| #[trigger] elected.contains(j) == elect_spec(me, peer_of(st1, id), cs).contains(cand_at(st1.node_sessions@, st1.connection_ids@, j)),
+        forall|s: Seq<Cand>| #[trigger] field_in(s, st1.node_sessions@, st1.connection_ids@, st1.authenticated_sessions@, peer_of(st1, id)) ==>
+            same_members(elect_spec(me, peer_of(st1, id), s), elect_spec(me, peer_of(st1, id), cs)),
+{
+    let peer = peer_of(st1, id); let m = st1.node_sessions@; let conn = st1.connection_ids@; let a1 = st1.authenticated_sessions@;
+    lemma_field(st1, id, cs, cs);
+    assert forall|c: Cand| cs.contains(c) <==> (rival_in(m, a1, peer, c.actor_id) && c == cand_at(m, conn, c.actor_id)) by {
+        assert(cand_at(m, conn, c.actor_id) == cand_of(st1, c.actor_id));
+        assert(rival_in(m, a1, peer, c.actor_id) == rival(st1, peer, c.actor_id));
+        if rival(st1, peer, c.actor_id) && c == cand_of(st1, c.actor_id) { assert(takes_part(st1, id, c)); }
+        if cs.contains(c) { assert(takes_part(st1, id, c)); assert(rival(st1, peer, id)); }
+    }
+    let e = elect_spec(me, peer, cs);
+    lemma_elect_subset_nonempty(me, peer, cs);
+    assert forall|j: ActorId| #[trigger] elected.contains(j) == e.contains(cand_at(m, conn, j)) by {
+        if elected.contains(j) {
+            let i = choose|i: int| 0 <= i < elected.len() && elected[i] == j;
+            assert(e[i].actor_id == j); assert(e.contains(e[i])); assert(cs.contains(e[i]));
+            assert(e[i] == cand_of(st1, e[i].actor_id));
+            assert(e[i] == cand_at(m, conn, j));
+        }
+        if e.contains(cand_at(m, conn, j)) { let i = choose|i: int| 0 <= i < e.len() && e[i] == cand_at(m, conn, j); assert(elected[i] == j); }
+    }
+    assert forall|s: Seq<Cand>| #[trigger] field_in(s, m, conn, a1, peer) implies same_members(elect_spec(me, peer, s), e) by {
+        assert(same_members(s, cs));
+        lemma_order_independent(me, peer, s, cs);
+    }
+}
+/// the scan for losers, read as a set of ids and as the list of their actor references
+pub proof fn lemma_losers(st1: NodeServerState, peer: Seq<char>, elected: Seq<ActorId>, losers: Seq<(ActorId, SessionRef)>)
+    requires collected(st1.node_sessions@, loser_fn(st1.authenticated_sessions@, peer, elected), losers),
+    ensures
+        forall|k: int| 0 <= k < losers.len() ==> st1.node_sessions@.contains_key((#[trigger] losers[k]).0) && losers[k].1 == st1.node_sessions@[losers[k].0].actor
+            && loser_fn(st1.authenticated_sessions@, peer, elected)(losers[k].0, st1.node_sessions@[losers[k].0]) is Some,
+        forall|j: ActorId| st1.node_sessions@.contains_key(j) && #[trigger] loser_fn(st1.authenticated_sessions@, peer, elected)(j, st1.node_sessions@[j]) is Some ==> (exists|k: int| 0 <= k < losers.len() && losers[k].0 == j),
+{
+    let m = st1.node_sessions@; let g = loser_fn(st1.authenticated_sessions@, peer, elected);
+    let ks = choose|ks: Seq<ActorId>| visit(m, g, losers, ks);
+    assert forall|k: int| 0 <= k < losers.len() implies m.contains_key((#[trigger] losers[k]).0) && losers[k].1 == m[losers[k].0].actor && g(losers[k].0, m[losers[k].0]) is Some by {
+        assert(m.contains_key(ks[k]) && g(ks[k], m[ks[k]]) == Some(losers[k]));
+    }
+    assert forall|j: ActorId| m.contains_key(j) && #[trigger] g(j, m[j]) is Some implies (exists|k: int| 0 <= k < losers.len() && losers[k].0 == j) by {
+        assert(ks.contains(j)); let k = choose|k: int| 0 <= k < ks.len() && ks[k] == j;
+        assert(g(ks[k], m[ks[k]]) == Some(losers[k]));
+    }
+}
+/// everything together: what commit_authenticated leaves behind and reports, for every candidate list with the right members
+pub proof fn lemma_outcome(me: Seq<char>, st1: NodeServerState, id: ActorId, cs: Seq<Cand>, elected: Seq<ActorId>, losers: Seq<(ActorId, SessionRef)>, after: Set<ActorId>)
+    requires named(st1, id), st1.authenticated_sessions@.contains(id),
+        collected(st1.node_sessions@, cand_fn(st1, peer_of(st1, id), true), cs),
+        elected == ids_of(elect_spec(me, peer_of(st1, id), cs)),
+        collected(st1.node_sessions@, loser_fn(st1.authenticated_sessions@, peer_of(st1, id), elected), losers),
+        forall|j: ActorId| #[trigger] after.contains(j) == (st1.authenticated_sessions@.contains(j) && !(exists|k: int| 0 <= k < losers.len() && losers[k].0 == j)),
+    ensures forall|s: Seq<Cand>| #[trigger] field_in(s, st1.node_sessions@, st1.connection_ids@, st1.authenticated_sessions@, peer_of(st1, id)) ==>
+        commit_outcome(st1.node_sessions@, st1.connection_ids@, st1.authenticated_sessions@, me, peer_of(st1, id), id, s, after, elected.contains(id), losers.map_values(second())),
+{
+    let peer = peer_of(st1, id); let m = st1.node_sessions@; let conn = st1.connection_ids@; let a1 = st1.authenticated_sessions@;
+    lemma_commit(me, st1, id, cs, elected);
+    lemma_losers(st1, peer, elected, losers);
+    let g = loser_fn(a1, peer, elected);
+    let hb = losers.map_values(second());
+    assert forall|s: Seq<Cand>| #[trigger] field_in(s, m, conn, a1, peer) implies commit_outcome(m, conn, a1, me, peer, id, s, after, elected.contains(id), hb) by {
+        let el = elect_spec(me, peer, s); let e = elect_spec(me, peer, cs);
+        assert(same_members(el, e));
+        assert forall|j: ActorId| #[trigger] after.contains(j) == (a1.contains(j) && !(rival_in(m, a1, peer, j) && !el.contains(cand_at(m, conn, j)))) by {
+            assert(elected.contains(j) == e.contains(cand_at(m, conn, j)));
+            if a1.contains(j) && rival_in(m, a1, peer, j) && !el.contains(cand_at(m, conn, j)) {
+                assert(g(j, m[j]) is Some);
+            }
+            if exists|k: int| 0 <= k < losers.len() && losers[k].0 == j {
+                let k = choose|k: int| 0 <= k < losers.len() && losers[k].0 == j;
+                assert(g(losers[k].0, m[losers[k].0]) is Some);
+            }
+        }
+        assert forall|i: int| 0 <= i < hb.len() implies exists|j: ActorId| a1.contains(j) && !after.contains(j) && m.contains_key(j) && #[trigger] hb[i] == m[j].actor by {
+            let j = losers[i].0;
+            assert(g(j, m[j]) is Some);
+            assert(!after.contains(j));
+            assert(hb[i] == m[j].actor);
+        }
+        assert forall|j: ActorId| a1.contains(j) && !#[trigger] after.contains(j) implies hb.contains(m[j].actor) by {
+            let k = choose|k: int| 0 <= k < losers.len() && losers[k].0 == j;
+            assert(hb[k] == m[j].actor);
+        }
     }
 }
 /// the verdict on the session itself is the same for every list with those members (whatever the HashMap's iteration order was)
